@@ -343,6 +343,10 @@ class Interp:
             if old is not None:
                 st.cells[cell] = set_at(old, path, val)
             return
+        remember = ()
+        if cell[0] == "H" and isinstance(val, Int):
+            # invariants over object fields (pos <= filled ...) should stay explicit across an overwrite when they still hold
+            remember = [c for c in st.cons.le if loc in c.terms and len(c.terms) == 2 and abs(c.const) <= (1 << 20)]
         st.kill_loc(cell, path)
         old = st.cells.get(cell)
         if not path:
@@ -353,6 +357,11 @@ class Interp:
             st.cells[cell] = set_at(old, path, val)
         if src_loc is not None and src_loc != loc:
             st.relocate_guards(src_loc, loc)
+        if remember:
+            st.cells[cell] = set_at(st.cells.get(cell, Top()), path, val) if path else val
+            for c in remember:
+                if c not in st.cons.le and st.entails_le(c):
+                    st.cons.le.add(c)
         if isinstance(val, Int):
             if lin is not None and not lin.is_const() and not val.is_const():
                 if loc not in lin.terms:
@@ -669,6 +678,8 @@ class Interp:
         elif op == "Ge":
             st.add_le(-diff, force)
         elif op == "Eq":
+            if len(diff.terms) >= 1 and (st.entails_le(diff + 1) or st.entails_le((-diff) + 1)):
+                raise Infeasible()
             st.add_eq(diff)
         elif op == "Ne":
             sv = diff.single_var()
